@@ -12,6 +12,8 @@ def props_for(path):
     name = path.split('::')[-1]
     if 'wcet::' in path.split(' ')[0] or path.startswith('wcet::') or '<wcet::' in path or 'wcet::JobCostModel' in path:
         p.add('C14')
+    if path.startswith('time::') or path.startswith('<time::'):
+        p.add('C20')
     if path.startswith('supply::') or '<supply::' in path:
         p.add('C09')
     if path.startswith('demand::') or '<demand::' in path or 'demand::RequestBound' in path or 'demand::AggregateRequestBound' in path:
@@ -39,7 +41,9 @@ def main():
     path, _ = extract.extract_repo('/repo', 'dbg'); c = Crate(path); os.remove(path)
     out = []
     for b in c.body_list:
-        if sites.skip_body(b) or b.kind not in ('Fn', 'AssocFn'):
+        time_arith = (b.path.startswith('<time::') or b.path.startswith('time::')) and b.mac and \
+            any(m in ('Add', 'Sub', 'AddAssign', 'Sum') for m in b.mac)
+        if (sites.skip_body(b) and not time_arith) or b.kind not in ('Fn', 'AssocFn'):
             continue
         ps = props_for(b.path)
         if not ps:
